@@ -78,10 +78,10 @@ def run_mut_jobs(chk, jobs):
         for fname, msg in res.get('forms_failures', []):
             body = ('sys.path.insert(0, %r)\n'
                     'from vf import mutworker as mw\n'
-                    'msg = (mw.replay_corpus if %r else mw.replay_forms)(hszinc, %r, %r)\n'
+                    'msg = getattr(mw, %r)(hszinc, %r, %r)\n'
                     'if msg is not None:\n'
                     '    VIOLATED(msg)\n'
-                    'HOLDS()\n') % (common.VERIF, bool(j.get('corpus')), j, fname)
+                    'HOLDS()\n') % (common.VERIF, 'replay_corpus' if j.get('corpus') else ('replay_canary' if j.get('canary') else 'replay_forms'), j, fname)
             tag = '%s-form-%s' % (j['prop'], fname)
             verdict = chk.candidate(tag, body, '%s: JSON input form %s: %s' % (j['prop'], fname, msg[:300]), model=fname)
             chk.query(tag, 'counterexample:' + verdict, wall, model=fname, message=msg[:200])
